@@ -11,7 +11,7 @@
    Spec (Spec/HunkApply.v): strict-position application of hunks (positions on both sides, every
    context/deleted line compared, header counts checked). *)
 From Coq Require Import List NArith ZArith Bool Arith.
-From GoGit Require Import Base.Out Model.Unified Spec.HunkApply Proofs.C45_apply Proofs.C45_gen Proofs.C45_stats.
+From GoGit Require Import Base.Out Gen.C45 Model.Unified Spec.HunkApply Proofs.C45_apply Proofs.C45_gen Proofs.C45_stats.
 Import ListNotations.
 
 (* the hunks generated for ANY normal chunk list and ANY context size >= 1, applied strictly to the old
@@ -21,6 +21,13 @@ Theorem C45_applies : forall ctx cs,
   strict_apply (generate ctx cs) (old_lines cs) = Some (new_lines cs).
 Proof. intros ctx cs Hc Hn. apply generate_applies; [exact Hn|left; intros ->; inversion Hc]. Qed.
 Print Assumptions C45_applies.
+
+(* Patch.Encode uses DefaultContextLines (regenerated from the source): it is in the range of C45_applies *)
+Theorem C45_default_context : forall cs,
+  normal cs = true ->
+  strict_apply (generate (Z.to_nat diff_DefaultContextLines) cs) (old_lines cs) = Some (new_lines cs).
+Proof. intros cs Hn. apply C45_applies; [vm_compute; repeat constructor | exact Hn]. Qed.
+Print Assumptions C45_default_context.
 
 (* the line lists are the two versions: their concatenations are utils/diff Src and Dst of the chunks *)
 Theorem C45_lines_are_the_versions : forall cs,
